@@ -5,4 +5,5 @@ seed=/verif/seeded/$1; pid=$2; tier=${3:-quick}
 cd /repo && git apply "$seed/patch.diff" || { echo "patch failed"; exit 3; }
 cd /verif && ./check "$pid" --tier "$tier" > /tmp/try_$1_$pid.log 2>&1; rc=$?
 git -C /repo checkout -- .
+git -C /verif checkout -- evidence 2>/dev/null
 echo "seed=$1 check=$pid tier=$tier exit=$rc"; grep -c '^VIOLATION' /tmp/try_$1_$pid.log; grep -m3 'what:' /tmp/try_$1_$pid.log | cut -c1-300; tail -1 /tmp/try_$1_$pid.log
